@@ -28,6 +28,8 @@ import OpmVerif.Proofs.Satfunc
 import OpmVerif.Proofs.Satfunc3
 import OpmVerif.Proofs.SatDeck
 import OpmVerif.Proofs.HystFull
+import OpmVerif.Proofs.Killough5
+import OpmVerif.Proofs.SatDeckKr
 
 namespace OpmVerif.Props.C15
 open OpmVerif.Tab1D OpmVerif.Eps OpmVerif.Hyst OpmVerif.SatDeck
@@ -631,5 +633,143 @@ example (sw : ℚ) (h : List (Triple ℚ)) :
     (fun x => ⟨le_max_left _ _, max_le (by norm_num) (min_le_left _ _)⟩)).1
 
 end fullExamples
+
+/-! ## Fifth round — Killough's non-wetting scanning curve and Land's formula outside its domain -/
+
+section killough5
+open OpmVerif.HystFull
+variable (c : Cfg K) (l : Lits K) (f : Laws K) (p : HystFull.Static K)
+
+/-- Killough, non-wetting phase, **arbitrary** drainage and imbibition curves: at the reversal point
+the scanning curve has the value `Krnd(Shy)·Krni(Snmaxd)/Krnd(Snmaxd)`; it equals the drainage value
+there — the scanning curve "starts continuously" — **iff** the imbibition curve meets the drainage
+curve at the drainage maximum saturation `Snmaxd`. -/
+theorem killough_krn_scan_start (st : HystFull.State K) (hc : st.KrndHy = f.krnD st.krnMdc)
+    (hd : (1 - st.krnMdc) - st.Sncrt ≠ 0) (hm : p.KrndMax ≠ 0) (hne : f.krnD st.krnMdc ≠ 0) :
+    krnScan f p st st.krnMdc = st.KrndHy / p.KrndMax * f.krnI (1 - p.Snmaxd) ∧
+    (krnScan f p st st.krnMdc = f.krnD st.krnMdc ↔ f.krnI (1 - p.Snmaxd) = p.KrndMax) :=
+  ⟨krnScan_reversal_value f p st hd, krnScan_continuous_iff f p st hc hd hm hne⟩
+
+/-- The Killough scanning curve is monotone (non-increasing in the wetting saturation) for every
+monotone imbibition curve, every state with the reversal above the trapped saturation. -/
+theorem killough_krn_scan_monotone (st : HystFull.State K) (s t : K) (h0 : 0 ≤ st.KrndHy) (hm : 0 < p.KrndMax)
+    (hi : p.Sncri ≤ p.Snmaxd) (hd : st.Sncrt < 1 - st.krnMdc) (hst : s ≤ t)
+    (hmono : ∀ x y, x ≤ y → f.krnI y ≤ f.krnI x) : krnScan f p st t ≤ krnScan f p st s :=
+  krnScan_antitone f p st s t h0 hm hi hd hst hmono
+
+/-- The bound that holds on the whole scanning curve: its start value; for curves that meet at
+`Snmaxd` this is the drainage value at the reversal point. -/
+theorem killough_krn_scan_bound (st : HystFull.State K) (sw : K) (hc : st.KrndHy = f.krnD st.krnMdc)
+    (h0 : 0 ≤ f.krnD st.krnMdc) (hm : 0 < p.KrndMax) (hi : p.Sncri ≤ p.Snmaxd) (hd : st.Sncrt < 1 - st.krnMdc)
+    (h1 : st.krnMdc ≤ sw) (hmono : ∀ x y, x ≤ y → f.krnI y ≤ f.krnI x) :
+    krnScan f p st sw ≤ st.KrndHy / p.KrndMax * f.krnI (1 - p.Snmaxd) ∧
+    (f.krnI (1 - p.Snmaxd) = p.KrndMax → krnScan f p st sw ≤ f.krnD st.krnMdc) :=
+  ⟨krnScan_le_start f p st sw (by rw [hc]; exact h0) hm hi hd h1 hmono,
+   fun hmeet => krnScan_le_reversal f p st sw hc h0 hm hi hd h1 hmono hmeet⟩
+
+/-- Land's trapped saturation after **every history**, outside the domain of `killough_trapped_bounds`:
+if the denominator `D` of Land's formula is in `(0,1)` the trapped saturation exceeds the historical
+maximum `Snhy`, if `D < 0` it is below the drainage critical saturation; and `finalize()`'s constant
+`C` is negative whenever the imbibition critical saturation is below the drainage one. -/
+theorem killough_trapped_outside (he : c.enabled = true) (h : List (Triple K)) (hk : c.killough = true)
+    (h1 : p.Sncrd < 1 - (HystFull.run c l f p (HystFull.init c l f p) h).krnMdc) :
+    (0 < (1 + c.modParam * (p.Snmaxd - (1 - (HystFull.run c l f p (HystFull.init c l f p) h).krnMdc))) +
+          p.C * ((1 - (HystFull.run c l f p (HystFull.init c l f p) h).krnMdc) - p.Sncrd) →
+      (1 + c.modParam * (p.Snmaxd - (1 - (HystFull.run c l f p (HystFull.init c l f p) h).krnMdc))) +
+          p.C * ((1 - (HystFull.run c l f p (HystFull.init c l f p) h).krnMdc) - p.Sncrd) < 1 →
+      1 - (HystFull.run c l f p (HystFull.init c l f p) h).krnMdc < (HystFull.run c l f p (HystFull.init c l f p) h).Sncrt) ∧
+    ((1 + c.modParam * (p.Snmaxd - (1 - (HystFull.run c l f p (HystFull.init c l f p) h).krnMdc))) +
+          p.C * ((1 - (HystFull.run c l f p (HystFull.init c l f p) h).krnMdc) - p.Sncrd) < 0 →
+      (HystFull.run c l f p (HystFull.init c l f p) h).Sncrt < p.Sncrd) := by
+  have hcons := HystFull.run_consistent c l f p h _ (HystFull.init_consistent c l f p he)
+  rw [hcons.2.1 hk]
+  exact landN_outside c p _ h1
+
+theorem killough_land_constant_negative
+    (hC : p.C = 1 / (p.Sncri - p.Sncrd + l.tiny) - 1 / (p.Snmaxd - p.Sncrd))
+    (h1 : p.Sncri + l.tiny < p.Sncrd) (h2 : p.Sncrd < p.Snmaxd) : p.C < 0 :=
+  landC_negative l p hC h1 h2
+
+end killough5
+
+section killough5Examples
+open OpmVerif.HystFull
+
+/-- the repro deck's cell 0 as numbers (gas-oil, Swl 0.2): drainage `krg` 0.529 at the reversal
+`Sg = 0.75`, maximum 0.575, imbibition curve 0.8 at `Snmaxd = 1`: the scanning curve starts at
+`0.529·0.8/0.575 ≠ 0.529` — the curves do not meet, so by `killough_krn_scan_start` no continuous start -/
+def ex5Laws : Laws ℚ :=
+  { krwD := fun s => s, krnD := fun s => if s ≤ 0 then 575 / 1000 else 529 / 1000, pcD := fun _ => 0, krwI := fun s => s,
+    krnI := fun s => if s ≤ 0 then 8 / 10 else max 0 ((1 / 2 - s) * 8 / 5), pcI := fun _ => 0, krnIInv := fun k => k }
+def ex5Static : HystFull.Static ℚ :=
+  { exStatic with ow := false, Sncrd := 4 / 10, Sncri := 5 / 10, Snmaxd := 1, KrndMax := 575 / 1000 }
+def ex5State : HystFull.State ℚ :=
+  { pcMdc := 2, pcMic := 1, initialImb := false, krnMdc := 5 / 100, krwMdc := 0, KrndHy := 529 / 1000, KrwdHy := 0,
+    delta := 0, Sncrt := 498 / 1000, Swcrt := 0, Krwd_sncrt := 0 }
+example : krnScan ex5Laws ex5Static ex5State ex5State.krnMdc = 529 / 1000 / (575 / 1000) * (8 / 10) ∧
+    ¬ (krnScan ex5Laws ex5Static ex5State ex5State.krnMdc = ex5Laws.krnD ex5State.krnMdc) := by
+  have h := killough_krn_scan_start ex5Laws ex5Static ex5State (by norm_num [ex5State, ex5Laws])
+    (by norm_num [ex5State]) (by norm_num [ex5Static]) (by norm_num [ex5State, ex5Laws])
+  refine ⟨by rw [h.1]; norm_num [ex5State, ex5Static, ex5Laws], ?_⟩
+  rw [h.2]; norm_num [ex5Static, ex5Laws]
+/-- hypotheses of the monotonicity / bound theorems: the imbibition curve above is antitone -/
+example (sw : ℚ) (h1 : ex5State.krnMdc ≤ sw) :
+    krnScan ex5Laws ex5Static ex5State sw ≤ 529 / 1000 / (575 / 1000) * (8 / 10) := by
+  have hmono : ∀ x y : ℚ, x ≤ y → ex5Laws.krnI y ≤ ex5Laws.krnI x := by
+    intro x y hxy
+    simp only [ex5Laws]
+    by_cases hy : y ≤ 0
+    · have hx : x ≤ 0 := le_trans hxy hy
+      simp [hx, hy]
+    · by_cases hx : x ≤ 0
+      · simp only [hx, hy, if_true, if_false]
+        apply max_le (by norm_num)
+        have hy2 := not_le.mp hy; linarith
+      · simp only [hx, hy, if_false]
+        exact max_le_max (le_refl _) (by linarith)
+  have := (killough_krn_scan_bound ex5Laws ex5Static ex5State sw (by norm_num [ex5State, ex5Laws])
+    (by norm_num [ex5State, ex5Laws]) (by norm_num [ex5Static]) (by norm_num [ex5Static]) (by norm_num [ex5State]) h1 hmono).1
+  simpa [ex5State, ex5Static, ex5Laws] using this
+/-- repro deck cell 1: imbibition critical saturation 0.25 below the drainage one 0.4: `C < 0` -/
+def ex5Neg : HystFull.Static ℚ := { exStatic with Sncrd := 4 / 10, Sncri := 25 / 100, Snmaxd := 1, C := 1 / (25 / 100 - 4 / 10 + 1 / 1000000000000) - 1 / (1 - 4 / 10) }
+example : ex5Neg.C < 0 :=
+  killough_land_constant_negative exLits ex5Neg (by norm_num [ex5Neg, exLits]) (by norm_num [ex5Neg, exLits]) (by norm_num [ex5Neg])
+
+end killough5Examples
+
+/-! ## Fifth round — KRORW / KRORG are the same in both keyword families -/
+
+section kror5
+
+/-- `TableColumn::lookup` + `eval` honour the table at every node of a strictly increasing saturation
+column (both end shortcuts and the bisection with weight 0). -/
+theorem scanner_lookup_node {sat : List K} (kr : List K) (hs : StrictInc sat) {j : Nat} (hj : j < sat.length) :
+    lookupEval sat kr (nth sat j) = nth kr j :=
+  lookupEval_node kr hs hj
+
+/-- **family_equiv, the last two end-points**: the family II tables of the same curves give the same
+KRORW (SGOF starting at `Sg = 0`, so that `SWCR + SGL` is a node) and the same KRORG (gas table on
+the water table's nodes) as SWOF/SGOF: the oil relperm at the critical water / gas saturation, read
+by `lookupEval` on the *reversed* oil column in family II. All table lengths. -/
+theorem family_equiv_kror (a : Fam1 K) (tol : K) (hsh : Shared a) (hsg0 : front a.sg = 0)
+    (hs : StrictInc a.sw) (hsg : StrictInc a.sg)
+    (hlw : a.krow.length = a.sw.length) (hlk : a.krw.length = a.sw.length)
+    (hlg : a.krog.length = a.sg.length) (hlkg : a.krg.length = a.sg.length)
+    (hn : 0 < a.sw.length) (hng : 0 < a.sg.length) :
+    (unscaledInfo2 (toFam2 a) tol).Krorw = (unscaledInfo1 a tol).Krorw ∧
+    (unscaledInfo2 (toFam2 a) tol).Krorg = (unscaledInfo1 a tol).Krorg :=
+  ⟨family_equiv_krorw a tol hsg0 hs hlw hlk hn, family_equiv_krorg a tol hsh hsg hlg hlkg hng⟩
+
+/-- a four-node SWOF/SGOF pair on shared nodes satisfies the hypotheses -/
+example : (unscaledInfo2 (toFam2 OpmVerif.SatDeck.exTab) 0).Krorw = (unscaledInfo1 OpmVerif.SatDeck.exTab 0).Krorw ∧
+    (unscaledInfo2 (toFam2 OpmVerif.SatDeck.exTab) 0).Krorg = (unscaledInfo1 OpmVerif.SatDeck.exTab 0).Krorg :=
+  family_equiv_kror OpmVerif.SatDeck.exTab 0 (by norm_num [Shared, OpmVerif.SatDeck.exTab, nth])
+    (by simp [OpmVerif.SatDeck.exTab, front, nth])
+    (strictInc_of_pairwise (by norm_num [OpmVerif.SatDeck.exTab])) (strictInc_of_pairwise (by norm_num [OpmVerif.SatDeck.exTab]))
+    rfl rfl rfl rfl (by simp [OpmVerif.SatDeck.exTab]) (by simp [OpmVerif.SatDeck.exTab])
+example : lookupEval ([1 / 4, 1 / 2, 3 / 4, 1] : List ℚ) [1, 1 / 2, 1 / 4, 0] (3 / 4) = 1 / 4 :=
+  scanner_lookup_node (sat := [1 / 4, 1 / 2, 3 / 4, 1]) [1, 1 / 2, 1 / 4, 0] (strictInc_of_pairwise (by norm_num)) (j := 2) (by simp)
+
+end kror5
 
 end OpmVerif.Props.C15
